@@ -440,11 +440,11 @@ class Mitochondria:
         More complex than glycolysis - like the Krebs cycle in
         the mitochondrial matrix.
         """
-        # Normalize Python boolean literals
-        expression = expression.replace('True', '1').replace('False', '0')
-        expression = expression.replace('true', '1').replace('false', '0')
-
         tree = ast.parse(expression, mode='eval')
+        # Accept lowercase boolean names without touching string literals
+        for node in ast.walk(tree):
+            if isinstance(node, ast.Name) and node.id in ('true', 'false'):
+                node.id = 'True' if node.id == 'true' else 'False'
         return bool(self._compute_node(tree.body))
 
     def _oxidative_phosphorylation(self, expression: str) -> Any:
@@ -561,6 +561,8 @@ class Mitochondria:
 
         # Variable names (for constants like pi, e)
         elif isinstance(node, ast.Name):
+            if node.id in ('True', 'False'):
+                return node.id == 'True'
             if node.id in self.SAFE_FUNCTIONS:
                 return self.SAFE_FUNCTIONS[node.id]
             raise ValueError(f"Unknown variable: {node.id}")
